@@ -3,7 +3,17 @@
 open Model
 open Conv
 
+let wraw (metas : string) : string =
+  (* wraw name~metahex;...  ->  name=weight,... as createWeighted derives it from the raw metadata *)
+  String.concat "," (List.map (fun t -> match String.split_on_char '~' t with
+    | [k; m] ->
+      (* an int64-sized weight does not fit OCaml's 63-bit int: print through Int64 *)
+      let rec i64 p = (match p with XH -> 1L | XO q -> Int64.mul 2L (i64 q) | XI q -> Int64.add 1L (Int64.mul 2L (i64 q))) in
+      k ^ "=" ^ (match weight_raw (bytes_of_hex m) with Z0 -> "0" | Zpos p -> Printf.sprintf "%Ld" (i64 p) | Zneg p -> Printf.sprintf "-%Ld" (i64 p))
+    | _ -> failwith "wraw") (String.split_on_char ';' metas))
+
 let c12 (payload : string) : string =
+  if String.length payload > 5 && String.sub payload 0 5 = "wraw " then wraw (String.sub payload 5 (String.length payload - 5)) else
   match split_on ' ' payload with
   | [] -> "bad"
   | kind :: toks ->
@@ -383,6 +393,13 @@ let c14 (payload : string) : string =
     let kept = filter_servers (nat_of_int (int_of_string group)) servers in
     let ids = List.sort compare (List.map (fun (i, _) -> int_of_nat i) kept) in
     if ids = [] then "-" else String.concat "," (List.map string_of_int ids)
+  | ["fltraw"; group; srvs] ->
+    (* the raw metadata strings, parsed by the model's own url.ParseQuery: key~metahex;... *)
+    let servers = if srvs = "-" then [] else List.map (fun t -> match String.split_on_char '~' t with
+      | [k; m] -> (bytes_of_hex k, bytes_of_hex m) | _ -> failwith "srv") (String.split_on_char ';' srvs) in
+    let kept = filter_raw (bytes_of_hex group) servers in
+    let ks = List.sort compare (List.map (fun (k, _) -> hex_of_raw (raw_of_bytes k)) kept) in
+    if ks = [] then "-" else String.concat "," ks
   | "conv" :: evs ->
     let es = List.map (fun t -> if t = "C" then Consume else Pub (int_of_string (String.sub t 1 (String.length t - 1)))) evs in
     let s = drun { q = []; applied = Some 0; lastpub = None } es in
